@@ -185,7 +185,7 @@ def repr_cases(tier):
         for n in (1, 2, 3):
             if dim**n > 27:
                 continue
-            for shape in range(6):
+            for shape in range(10):
                 out.append(("oprepr", dim, eig, n, shape))
             for si in range(4):
                 out.append(("strepr", dim, eig, n, si))
@@ -200,6 +200,12 @@ def check_oprepr(dim, eig, n, shape):
     q1 = {projs[0]: 1.0, projs[1]: 2.0j, projs[-1]: -0.5}
     q2 = {projs[-2]: 1.5 - 1j}
     allq = set(range(n))
+    a_, b_ = eig[0], eig[1]
+    X_ = {a_ + b_: 1.0, b_ + a_: 1.0}
+    Y_ = {a_ + b_: -1j, b_ + a_: 1j}
+    Z_ = {a_ + a_: 1.0, b_ + b_: -1.0}
+    Z2_ = {a_ + a_: 0.25, b_ + b_: 4.0}
+    I_ = {a_ + a_: 1.0, b_ + b_: 1.0}
     shapes = [
         [(1.0, [])],  # identity
         [(2.0 - 1j, [(q1, {0})])],
@@ -207,6 +213,12 @@ def check_oprepr(dim, eig, n, shape):
         [(0.5, [(q1, {0}), (q2, {n - 1})])] if n > 1 else [(0.5, [(q2, {0})])],
         [(1.0, [(q1, {0})]), (-2.0j, [(q2, {n - 1})]), (3.0, [])],
         [(1.0, [({p: (i + 1) * (1 if i % 2 else 1j) for i, p in enumerate(projs)}, {n // 2})])],
+        # several single-qudit operators with the SAME projector keys and different coefficients (X / Y / Z / identity written out)
+        [(0.5, [(X_, {0}), (Y_, {n - 1})])] if n > 1 else [(0.5, [(X_, {0})]), (2.0, [(Y_, {0})])],
+        [(1.0, [(X_, {0}), (X_, {n - 1})] if n > 1 else [(X_, {0})]), (1.0, [(Y_, {0}), (Y_, {n - 1})] if n > 1 else [(Y_, {0})]),
+         (1.0, [(Z_, {0}), (Z_, {n - 1})] if n > 1 else [(Z_, {0})])],
+        [(1.0, [(Z_, {0})]), (3.0, [(I_, {0})]), (-1.0, [(Z2_, {n - 1})])],
+        [(1.0, [(Y_, {0})]), (1.0, [(X_, {n - 1})])],
     ]
     ops = shapes[shape]
     try:
